@@ -68,6 +68,15 @@ func safely(f func() string) (res string) {
 	return f()
 }
 
+// reencode: what a cursor accepted from foreign input becomes when it is encoded and decoded again
+func reencode(c *bstream.Cursor) string {
+	c2, err := bstream.FromString(c.String())
+	if err != nil {
+		return " re err"
+	}
+	return " re ok " + curToks(c2)
+}
+
 func runCursorOp(o *Out, ws []string) {
 	o.Op("%s", strings.Join(ws, " "))
 	res := safely(func() string {
@@ -79,7 +88,7 @@ func runCursorOp(o *Out, ws []string) {
 			if err != nil {
 				return "err"
 			}
-			return "ok " + curToks(c)
+			return "ok " + curToks(c) + reencode(c)
 		case "rt":
 			c, err := bstream.FromString(parseCurToks(ws[1:]).build().String())
 			if err != nil {
@@ -97,7 +106,7 @@ func runCursorOp(o *Out, ws []string) {
 			if err != nil {
 				return "err"
 			}
-			return "ok " + curToks(c)
+			return "ok " + curToks(c) + reencode(c)
 		case "final":
 			return fmt.Sprint(parseCurToks(ws[1:]).build().IsOnFinalBlock())
 		}
